@@ -92,6 +92,17 @@ def _m1_common(res, prop):
             fam[fkey] = fam.get(fkey, 0) + n
         res.extra["recursion_error_runs"] = res.extra.get("recursion_error_runs", 0) + out["recursion"]
     res.extra["configs"] = [dict(o["config"]) for o in outs if o["families"][0] == "mixin" and not o["asrt"]]
+    if prop in ("C01", "C02", "C03"):
+        q = m1_ops.run_quiet(res.tier)
+        res.replayed += q["n"]
+        res.extra["quiet_replays"] = q["n"]
+        for att in q["attention"]:
+            v = att.get("verdict")
+            if v and prop in v["violated"]:
+                pred, obs = att["pred"], att["obs"]
+                same3 = pred["exc"] == obs["exc"] and pred["postpar"] == obs["postpar"] and pred["postch"] == obs["postch"]
+                if not (prop == "C03" and not att["flags"]["c03"] and same3):
+                    res.violation(m1_ops.record(prop, q, att, "replay without harness reads during the call: violates %s (judged by TLC)" % v["violated"]))
     return outs
 
 
@@ -174,6 +185,12 @@ def c18(res):
     from . import m2_query
 
     outs = _m1_common(res, "C18")
+    for out in m1_ops.run_adversarial(res.tier):
+        res.replayed += out["per_family"].get("adv:alwayseq:mixin", 0) + out["per_family"].get("adv:alwayseq:light", 0)
+        for d in out.get("cross_diff", []):
+            res.violation({"property": "C18", "module": "ops", "config": out["config"]["name"], "asrt": False,
+                           "why": "NodeMixin and LightNodeMixin classes with the same user-defined special methods (%s) observed differently" % d["pair"],
+                           "pred": d["pred"], d["pair"][0]: d[d["pair"][0]], d["pair"][1]: d[d["pair"][1]]})
     qouts = m2_query.run("C18", res.tier)
     m2_query.classify(qouts, res, "C18")
     for out in qouts:
